@@ -15,7 +15,8 @@ def c05_greedy(w):
     psi = st.get("psi")
     if not psi:
         return False
-    if w.get("kind") == "invalid-path" and "does not end in the relaxed corner" not in (w.get("reason") or ""):
+    reason = w.get("reason") or ""
+    if w.get("kind") == "invalid-path" and not ("does not end in the relaxed corner" in reason or reason == "empty path"):
         return False
     models = w.get("greedy_model_paths") or []
     got = [list(p) for p in (w.get("path") or [])]
